@@ -160,18 +160,18 @@ func (e *Encoder) basePrelude() {
 	e.addPre("Ptr", fmt.Sprintf("(declare-datatypes ((Ptr 0)) (((mk-ptr (p.obj Int) (p.idx %s) (p.fld Int)))))", I))
 	e.addPre("Slice", fmt.Sprintf("(declare-datatypes ((Slice 0)) (((mk-slice (s.arr Int) (s.off %s) (s.len %s) (s.cap %s) (s.fld Int)))))", I, I, I))
 	e.addPre("Iface", "(declare-datatypes ((Iface 0)) (((mk-iface (i.tag Int) (i.val Int)))))")
-	e.addPre("str.len", fmt.Sprintf("(declare-fun str.len (Str) %s)", I))
-	e.addPre("str.cat", "(declare-fun str.cat (Str Str) Str)")
-	e.addPre("str.lt", "(declare-fun str.lt (Str Str) Bool)")
-	e.addPre("str.empty", "(declare-const str.empty Str)")
+	e.addPre("strlen", fmt.Sprintf("(declare-fun strlen (Str) %s)", I))
+	e.addPre("strcat", "(declare-fun strcat (Str Str) Str)")
+	e.addPre("strlt", "(declare-fun strlt (Str Str) Bool)")
+	e.addPre("strempty", "(declare-const strempty Str)")
 	{
-		e.addPre("str.ax", "(assert (= (str.len str.empty) 0))\n(assert (forall ((s Str)) (! (>= (str.len s) 0) :pattern ((str.len s)))))\n(assert (forall ((s Str)) (! (=> (= (str.len s) 0) (= s str.empty)) :pattern ((str.len s)))))\n(assert (forall ((a Str) (b Str)) (! (= (str.len (str.cat a b)) (+ (str.len a) (str.len b))) :pattern ((str.cat a b)))))")
+		e.addPre("strax", "(assert (= (strlen strempty) 0))\n(assert (forall ((s Str)) (! (>= (strlen s) 0) :pattern ((strlen s)))))\n(assert (forall ((s Str)) (! (=> (= (strlen s) 0) (= s strempty)) :pattern ((strlen s)))))\n(assert (forall ((a Str) (b Str)) (! (= (strlen (strcat a b)) (+ (strlen a) (strlen b))) :pattern ((strcat a b)))))")
 		e.addPre("tdiv", "(define-fun tdiv ((x Int) (y Int)) Int (ite (>= x 0) (ite (> y 0) (div x y) (- (div x (- y)))) (ite (> y 0) (- (div (- x) y)) (div (- x) (- y)))))\n(define-fun tmod ((x Int) (y Int)) Int (- x (* y (tdiv x y))))")
 	}
-	e.addPre("str.lt.ax", "(assert (forall ((a Str)) (! (not (str.lt a a)) :pattern ((str.lt a a)))))\n"+
-		"(assert (forall ((a Str) (b Str)) (! (or (str.lt a b) (str.lt b a) (= a b)) :pattern ((str.lt a b)))))\n"+
-		"(assert (forall ((a Str) (b Str)) (! (not (and (str.lt a b) (str.lt b a))) :pattern ((str.lt a b)))))\n"+
-		"(assert (forall ((a Str) (b Str) (c Str)) (! (=> (and (str.lt a b) (str.lt b c)) (str.lt a c)) :pattern ((str.lt a b) (str.lt b c)))))")
+	e.addPre("strlt.ax", "(assert (forall ((a Str)) (! (not (strlt a a)) :pattern ((strlt a a)))))\n"+
+		"(assert (forall ((a Str) (b Str)) (! (or (strlt a b) (strlt b a) (= a b)) :pattern ((strlt a b)))))\n"+
+		"(assert (forall ((a Str) (b Str)) (! (not (and (strlt a b) (strlt b a))) :pattern ((strlt a b)))))\n"+
+		"(assert (forall ((a Str) (b Str) (c Str)) (! (=> (and (strlt a b) (strlt b c)) (strlt a c)) :pattern ((strlt a b) (strlt b c)))))")
 	e.addPre("nilptr", "(define-fun nil.ptr () Ptr (mk-ptr 0 0 0))")
 	e.addPre("nilslice", "(define-fun nil.slice () Slice (mk-slice 0 0 0 0 0))")
 	e.addPre("niliface", "(define-fun nil.iface () Iface (mk-iface 0 0))")
@@ -288,7 +288,7 @@ func (e *Encoder) zero(t types.Type) string {
 			}
 			return "(_ +zero 11 53)"
 		case u.Info()&types.IsString != 0:
-			return "str.empty"
+			return "strempty"
 		case u.Kind() == types.UntypedNil:
 			return "nil.ptr"
 		}
@@ -319,7 +319,7 @@ func (e *Encoder) zero(t types.Type) string {
 
 func (e *Encoder) strLit(s string) string {
 	if s == "" {
-		return "str.empty"
+		return "strempty"
 	}
 	if n, ok := e.strLits[s]; ok {
 		return n
@@ -330,27 +330,35 @@ func (e *Encoder) strLit(s string) string {
 	return n
 }
 
-// strLitDecls returns declarations for all string literals used (distinctness, lengths).
-func (e *Encoder) strLitDecls() []string {
+// strLitDecls returns declarations for the string literals mentioned in text
+// (distinctness, lengths, lexicographic order among them).
+func (e *Encoder) strLitDecls(text string) []string {
 	var out []string
-	if len(e.strOrder) == 0 {
+	var used []string
+	for _, s := range e.strOrder {
+		if mentions(text, e.strLits[s]) {
+			used = append(used, s)
+		}
+	}
+	if len(used) == 0 {
 		return nil
 	}
-	names := []string{"str.empty"}
-	for _, s := range e.strOrder {
+	names := []string{"strempty"}
+	for _, s := range used {
 		n := e.strLits[s]
 		out = append(out, fmt.Sprintf("(declare-const %s Str) ; %q", n, s))
-		out = append(out, fmt.Sprintf("(assert (= (str.len %s) %d))", n, len(s)))
+		out = append(out, fmt.Sprintf("(assert (= (strlen %s) %d))", n, len(s)))
 		names = append(names, n)
 	}
 	out = append(out, fmt.Sprintf("(assert (distinct %s))", strings.Join(names, " ")))
-	// lexicographic order facts between literals
-	lits := append([]string{}, e.strOrder...)
-	sort.Strings(lits)
-	prev := "str.empty"
-	for _, s := range lits {
-		out = append(out, fmt.Sprintf("(assert (str.lt %s %s))", prev, e.strLits[s]))
-		prev = e.strLits[s]
+	if mentions(text, "strlt") {
+		lits := append([]string{}, used...)
+		sort.Strings(lits)
+		prev := "strempty"
+		for _, s := range lits {
+			out = append(out, fmt.Sprintf("(assert (strlt %s %s))", prev, e.strLits[s]))
+			prev = e.strLits[s]
+		}
 	}
 	return out
 }
@@ -369,7 +377,14 @@ func (e *Encoder) typeTag(t types.Type) int {
 
 func mkPtr(obj, idx, fld string) string { return fmt.Sprintf("(mk-ptr %s %s %s)", obj, idx, fld) }
 
+// curDefs maps defined names to their defining terms when those are constructor
+// applications, so that projections see through definitions. Set per VC (generation is sequential).
+var curDefs = map[string]string{}
+
 func splitApp(t, head string, n int) ([]string, bool) {
+	if d, ok := curDefs[t]; ok {
+		t = d
+	}
 	pre := "(" + head + " "
 	if !strings.HasPrefix(t, pre) || !strings.HasSuffix(t, ")") {
 		return nil, false
